@@ -419,3 +419,162 @@ func indexOf(in ssa.Instruction) int {
 	}
 	return 0
 }
+
+func init() {
+	reg(&eng.Rule{ID: "C04.range-table", Prop: "C04", Floor: 3,
+		Doc: "GetReferenceUpdaterEntriesInRangeForRef includes a reference-updater entry of the range exactly when no reference filter is given, or the entry's reference equals the filter, or the reference is an always-relevant gittuf reference (both sites: inside the range and the entry that is the range's first); an included entry is pushed on the stack and entered in the in-range set; the result is the stack reversed (log order).",
+		Run: c04RangeTable})
+}
+
+func c04RangeTable(c *Ctx, r *R) {
+	fn := r.Fn("pkg/rsl.GetReferenceUpdaterEntriesInRangeForRef")
+	if fn == nil {
+		return
+	}
+	atoms := func(v ssa.Value) (string, bool, bool) {
+		if op, ok := eng.CmpAtom(v, eng.PLen(eng.PParam("refName")), eng.PInt(0)); ok {
+			switch op {
+			case token.EQL:
+				return "noFilter", true, true
+			case token.NEQ, token.GTR:
+				return "noFilter", false, true
+			}
+		}
+		if op, ok := eng.CmpAtom(v, eng.PParam("refName"), eng.PStr("")); ok {
+			switch op {
+			case token.EQL:
+				return "noFilter", true, true
+			case token.NEQ:
+				return "noFilter", false, true
+			}
+		}
+		if op, ok := eng.CmpAtom(v, eng.PMethod("GetRefName", nil), eng.PParam("refName")); ok {
+			switch op {
+			case token.EQL:
+				return "refEq", true, true
+			case token.NEQ:
+				return "refEq", false, true
+			}
+		}
+		if k, _, ok := eng.RootCall(v); ok && k.Name() == "pkg/rsl.isRelevantGittufRef" && eng.PMethod("GetRefName", nil)(k.Arg(0)) {
+			return "gittufRef", true, true
+		}
+		return "", false, false
+	}
+	// sites: the true edges of the type tests for ReferenceUpdaterEntry
+	n := 0
+	for _, b := range fn.Blocks {
+		if len(b.Instrs) == 0 {
+			continue
+		}
+		iff, ok := b.Instrs[len(b.Instrs)-1].(*ssa.If)
+		if !ok || !typeAssertOK(iff.Cond, "pkg/rsl.ReferenceUpdaterEntry") {
+			continue
+		}
+		n++
+		r.Site(1)
+		runTable(c, r, dtable{key: "relevance:" + itoa(n), fn: fn, start: b.Succs[0], what: "relevance of a range entry", names: []string{"noFilter", "refEq", "gittufRef"}, atoms: atoms,
+			outcome: func(in ssa.Instruction) string {
+				if mu, ok := in.(*ssa.MapUpdate); ok && strings.HasSuffix(mu.Map.Type().String(), "map[string]bool") {
+					if b, isC := eng.ConstBool(mu.Value); isC && b {
+						return "include"
+					}
+					return "include-false"
+				}
+				if ci, ok := in.(ssa.CallInstruction); ok {
+					k := Call{Instr: ci, Callee: eng.CalleeOf(ci)}
+					if k.Name() == "pkg/rsl.GetParentForEntry" {
+						return "skip"
+					}
+				}
+				if _, ok := in.(*ssa.MakeMap); ok {
+					return "skip"
+				}
+				return retLabel(in)
+			},
+			spec: func(a map[string]bool) string {
+				if a["noFilter"] || a["refEq"] || a["gittufRef"] {
+					return "include"
+				}
+				return "skip"
+			}})
+	}
+	r.Check(n == 2, "relevance-sites", fn.Pos(), "two relevance decisions (inside the range, first entry of the range)", fmt.Sprintf("expected two relevance decisions, found %d", n))
+	// an included entry is pushed on the stack in the same block as it is entered in the set
+	okPush := true
+	nPush := 0
+	for _, b := range fn.Blocks {
+		hasSet, hasPush := false, false
+		for _, in := range b.Instrs {
+			if mu, ok := in.(*ssa.MapUpdate); ok && strings.HasSuffix(mu.Map.Type().String(), "map[string]bool") {
+				hasSet = true
+			}
+			if ci, ok := in.(ssa.CallInstruction); ok {
+				k := Call{Instr: ci, Callee: eng.CalleeOf(ci)}
+				if k.Name() == "builtin.append" && strings.HasSuffix(k.Instr.Common().Args[0].Type().String(), "[]"+eng.Module+"/pkg/rsl.ReferenceUpdaterEntry") && len(eng.VariadicElems(k.Instr.Common().Args[1])) == 1 {
+					if _, isIdx := eng.Strip(eng.VariadicElems(k.Instr.Common().Args[1])[0]).(*ssa.UnOp); !isIdx {
+						hasPush = true
+					}
+				}
+			}
+		}
+		if hasSet {
+			nPush++
+			okPush = okPush && hasPush
+		}
+	}
+	r.Check(okPush && nPush == 2, "included-is-returned", fn.Pos(), "an entry entered in the in-range set is also pushed on the result stack", "an entry is entered in the in-range set without being pushed on the result stack (or vice versa)")
+	// log order: the result is built by a descending index loop over the whole stack
+	okRev := false
+	for _, h := range eng.LoopsOver(fn, func(v ssa.Value) bool {
+		return strings.HasSuffix(v.Type().String(), "[]"+eng.Module+"/pkg/rsl.ReferenceUpdaterEntry")
+	}) {
+		if descendingFullLoop(h) && scanExhaustive(c, r, "log-order:all", h, nil, "reversal of the result stack") {
+			okRev = true
+		}
+	}
+	// the annotations are attached in order of occurrence: the accumulated list (newest first) is read from its last element down to index 0
+	okAnn := false
+	for _, h := range eng.LoopsOver(fn, func(v ssa.Value) bool {
+		return strings.HasSuffix(v.Type().String(), "[]*"+eng.Module+"/pkg/rsl.AnnotationEntry")
+	}) {
+		if descendingFullLoop(h) {
+			okAnn = true
+		}
+	}
+	r.Check(okAnn, "annotations-all-read", fn.Pos(), "every accumulated annotation is read (from len-1 down to 0)", "the loop over the accumulated annotations does not run from len-1 down to index 0: an annotation (e.g. the newest revocation) would be ignored")
+	r.Check(okRev, "log-order", fn.Pos(), "the result is the stack read from its last element down to index 0 (log order)", "the result is not built by reading the whole stack from len-1 down to 0: entries would be returned out of log order or some dropped")
+}
+
+// descendingFullLoop: `for i := len(x) - 1; i >= 0; i--`.
+func descendingFullLoop(h *ssa.BasicBlock) bool {
+	iff, ok := h.Instrs[len(h.Instrs)-1].(*ssa.If)
+	if !ok {
+		return false
+	}
+	bo, ok := iff.Cond.(*ssa.BinOp)
+	if !ok || bo.Op != token.GEQ {
+		return false
+	}
+	if z, isC := eng.ConstInt(bo.Y); !isC || z != 0 {
+		return false
+	}
+	phi, ok := bo.X.(*ssa.Phi)
+	if !ok {
+		return false
+	}
+	startOK, stepOK := false, false
+	for _, e := range phi.Edges {
+		if sb, ok := e.(*ssa.BinOp); ok && sb.Op == token.SUB {
+			if one, isC := eng.ConstInt(sb.Y); isC && one == 1 {
+				if eng.IsLenOf(eng.Any)(sb.X) {
+					startOK = true
+				}
+				if sb.X == ssa.Value(phi) {
+					stepOK = true
+				}
+			}
+		}
+	}
+	return startOK && stepOK
+}
